@@ -4,6 +4,7 @@ import CaoModel.Driver.ValueEngine
 import CaoModel.Driver.CompileEngine
 import CaoModel.Driver.VmEngine
 import CaoModel.Driver.ModEngine
+import CaoModel.Driver.SemEngine
 open Cao Cao.Driver
 
 structure DState where
@@ -22,6 +23,7 @@ def step (d : DState) (line : String) : DState × String :=
   | "hm" :: args => let (s, o) := hmStep d.hm args; ({ d with hm := s }, o)
   | "val" :: args => (d, valStep args)
   | "cmp" :: args => (d, cmpStep args)
+  | "sem" :: args => (d, semStep args)
   | "mod" :: args => let (s, o) := modStep d.mod args; ({ d with mod := s }, o)
   | "vm" :: args => let (s, o) := vmStep d.vm args; ({ d with vm := s }, o)
   | "tbl" :: args => let (s, o) := tblStep d.tbl args; ({ d with tbl := s }, o)
